@@ -98,10 +98,6 @@ package raft
 //@ iface Transport.SendAppendEntries(address, request) (response, err)
 //@ iface Transport.SendInstallSnapshot(address, request) (response, err)
 
-//@ iface SnapshotFile.Close() (err)
-//@   ensures ioOK ==> err == nil
-//@ iface SnapshotFile.Discard() (err)
-//@   ensures ioOK ==> err == nil
 
 // respond: non-blocking send on the future's buffered channel (select with default).
 //@ func respond
@@ -430,11 +426,6 @@ package raft
 //@   modifies Lfirst, Llast, Lterm, Ltyp, Ldata
 //@   ensures err == nil ==> 0 <= Lfirst && Lfirst <= Llast
 //@ iface Log.Close() (err)
-//@ iface SnapshotStorage.SnapshotFile() (file, err)
-//@ iface SnapshotStorage.NewSnapshotFile(lastIncludedIndex, lastIncludedTerm, configuration) (file, err)
-//@   ensures ioOK ==> err == nil
-//@   ensures err == nil ==> file != nil
-//@ iface SnapshotFile.Metadata() (md)
 //@ iface StateMachine.Restore(snapshotReader) (err)
 //@ iface StateMachine.Snapshot(snapshotWriter) (err)
 //@ iface StateMachine.NeedSnapshot(logSize) (result)
